@@ -175,7 +175,7 @@ Proof.
       * destruct (ca_replicas cs); [|discriminate]. destruct (resolve_iop _ _); [|discriminate].
         match type of Eu with (if ?b then _ else _) = _ => destruct b end.
         -- unfold finish_update in Eu. repeat (match type of Eu with (if ?b then _ else _) = _ => destruct b end); discriminate.
-        -- destruct (select_nodes _ _ _ _ _ _) as [sel en]. destruct en; unfold with_error, finish_update in Eu;
+        -- destruct (select_or_fail _ _ _ _ _ _ _) as [sel en]. destruct en; unfold with_error, finish_update in Eu;
              repeat (match type of Eu with context [if ?b then _ else _] => destruct b end); discriminate.
       * destruct (clear_canary_annots _) as [a' ch].
         unfold finish_update in Eu. repeat (match type of Eu with (if ?b then _ else _) = _ => destruct b end); discriminate.
